@@ -235,6 +235,8 @@ func (n *NNode) Depth(d int, maxDepthCap int) (int, error) {
 			continue
 		}
 		if curDepth, err := l.InNode.Depth(d+1, maxDepthCap); err != nil {
+			// clear the traversal mark before giving up, otherwise later queries would skip this node
+			n.visited = false
 			return curDepth, err
 		} else if curDepth > max {
 			max = curDepth
